@@ -122,6 +122,10 @@ func (hs *history) genCreate(st *step, users []channel.Channel) {
 			rc.Kind = "index"
 		}
 		rc.Name, rc.NameClass = hs.pickName(i, st, users, rc.Kind == "calc")
+		if (rc.Kind == "virtual" || rc.Kind == "index") && r.Chance(1, 12) {
+			// a system channel made after user channels: its key sorts after theirs
+			rc.Internal = true
+		}
 		switch rc.Kind {
 		case "index":
 			rc.DataType = "timestamp"
@@ -293,13 +297,30 @@ func (hs *history) genRename(st *step, users []channel.Channel) {
 		}
 		st.Names = append(st.Names, hs.freshName())
 	}
-	if r.Chance(4, 100) {
+	if r.Chance(8, 100) {
+		// an internal channel (refused) after the valid entries, preferably one leased by
+		// the node that serves the request: then the whole batch is one gateway batch
+		var pick *channel.Channel
+		var here, any []channel.Channel
 		for _, ch := range hs.sortedMeta() {
 			if ch.Internal {
-				st.Keys = append(st.Keys, uint32(ch.Key()))
-				st.Names = append(st.Names, hs.freshName())
-				break
+				any = append(any, ch)
+				if ch.Leaseholder == node.Key(st.Via) {
+					here = append(here, ch)
+				}
 			}
+		}
+		if len(here) > 0 {
+			c := prng.Pick(r, here)
+			pick = &c
+		} else if len(any) > 0 {
+			c := prng.Pick(r, any)
+			pick = &c
+		}
+		if pick != nil {
+			hs.h.Count("rename_batches_ending_in_an_internal_channel", 1)
+			st.Keys = append(st.Keys, uint32(pick.Key()))
+			st.Names = append(st.Names, hs.freshName())
 		}
 	}
 }
